@@ -135,9 +135,6 @@ func storeAgrees(s *flyt.SharedStore, model map[string]any, universe []string) s
 		return fmt.Sprintf("Keys()=%q, model keys %q", ks, want)
 	}
 	all := s.GetAll()
-	if all == nil {
-		return "GetAll() returned nil"
-	}
 	if m := mapsSame(all, model); m != "" {
 		return "GetAll() vs model: " + m
 	}
